@@ -226,9 +226,11 @@ fn enumerate_cases(file: &[u8], parsed: &Parsed, seed: u64, cap: usize, clean_ca
 	for (k, calls) in clean_calls {
 		let idxs: Vec<u64> = if (*calls as usize) <= cap / 2 { (0..*calls).collect() } else { (0..(cap / 2) as u64).map(|j| j * calls / (cap / 2) as u64).collect() };
 		for i in idxs {
-			let kind = match i % 3 {
+			let kind = match i % 5 {
 				0 => IoErrKind::Other,
 				1 => IoErrKind::UnexpectedEof,
+				3 => IoErrKind::WouldBlock,
+				4 => IoErrKind::TimedOut,
 				_ => IoErrKind::Interrupted,
 			};
 			cases.push(Case { fault: Fault::Io { at_call: i, kind }, reader: k.clone() });
@@ -373,7 +375,7 @@ impl Prop for C17 {
 		"A scenario is one valid container file (written by the real writer or by the reference writer; all six codecs; 1-12 values of width >= 1 byte in 1-5 blocks) and the enumerated fault space of that file: \
 		 (T) truncation at EVERY byte offset x reader kinds {slice, SimSource Whole, Fixed(1), Fixed(3), BufReader(7)}; (S) every byte of every trailing sync marker damaged; \
 		 (N) every block's object count rewritten to count-1, count+1, 0, 2^40, i64::MAX, -count, -1, i64::MIN (varint re-encoded); (Z) the same for the byte size; (K) snappy: each CRC byte and sampled payload bytes damaged; \
-		 (B) one byte xored at every offset (sampled above the cap); (T+B) forty times two faults at once: the file cut AND one byte before the cut damaged; (E) an I/O error of kind Other | UnexpectedEof | Interrupted at EVERY source call index of four stream reader kinds. \
+		 (B) one byte xored at every offset (sampled above the cap); (T+B) forty times two faults at once: the file cut AND one byte before the cut damaged; (E) an I/O error of kind Other | UnexpectedEof | Interrupted | WouldBlock | TimedOut at EVERY source call index of four stream reader kinds. \
 		 An evaluation is one complete read of one damaged file (or one faulty source). Every case is non-trivial (a fault is always applied); distinct = distinct (fault kind, file region hit, codec, reader kind class, result shape class such as 'VEN'). One file in 60 is LONG (250-1200 blocks, or more than 65 535 objects in one block, or — reference-written — a run of up to 20 000 consecutive blocks without objects): the per-block fault classes are then enumerated for a sample of the blocks (both ends, around the 256th, four drawn) and 160 cases are drawn from the whole enumeration. One file in 25 carries a value of 10-140 KB (sizes around 64 KiB included); damaged counts are also read through the iterator adaptors, which are held to the size_hint contract; a damaged byte inside a payload leaves the declared counts genuine, so the reader must then reach the end of the stream within the call budget."
 	}
 	fn assumptions(&self) -> Vec<String> {
@@ -768,7 +770,16 @@ impl Prop for C17 {
 						out.count("io_interrupted_absorbed", 1);
 					} else {
 						let io_flag = r.ctor_err.is_some() || r.items.iter().any(|i| matches!(i, Item::Err { io: true, .. }));
-						if errs > 1 || after_vals > 0 {
+						if matches!(kind, IoErrKind::WouldBlock | IoErrKind::TimedOut) {
+							// (a reader may or may not treat these two kinds as final — a non-blocking caller might be
+							// offered a way to go on —; what it may never do is yield a value that was not written: whatever
+							// comes out, before or after the error, is a prefix of the original values)
+							if !is_prefix(&r.values(), &orig) {
+								out.fail(format!("C17:io-error:value-not-written-after-the-error:{codec}"), format!("{what}: shape {}", r.shape()));
+								break;
+							}
+							out.count("io_would_block_or_timed_out_surfaced", 1);
+						} else if errs > 1 || after_vals > 0 {
 							out.fail(format!("C17:io-error:not-reported-once-then-end:{codec}"), format!("{what}: shape {}", r.shape()));
 							break;
 						}
